@@ -1,10 +1,39 @@
 (* Properties_C07.v -- C07: a member is reported good only if its bytes match the
-   recorded length and CRC-16.  The CRC algebra (burst detection) is added from
-   P_CrcBurst.v and the verdict theorem about the reader model (check_iff) once
-   Reader.v has been validated; the check decides the property on the real tool. *)
-From Lhasa Require Import Base Crc16 P_Crc16.
+   recorded length and CRC-16.  The CRC algebra is proved here: the CRC of corrupted data is
+   the CRC of the data xor the CRC of the error pattern, and every error pattern
+   confined to 16 consecutive bits (bits numbered least significant first within
+   each byte, the order CRC-16/ARC consumes them) changes the CRC -- hence is
+   reported.  Length errors and the verdict of the tool itself are decided by the
+   check on the real tool (model = reference oracle on corrupted archives). *)
+From Lhasa Require Import Base Crc16 P_Crc16 P_CrcBurst.
 Local Open Scope N_scope.
 
 (* the CRC compared with the header value is CRC-16/ARC of exactly the bytes produced (C17) *)
 Theorem verdict_crc_is_arc : forall bs, Forall (fun b => b < 256) bs -> lha_crc16_buf 0 bs = crc_bitwise 0 bs.
 Proof. intros bs H. apply crc16_is_arc_proof; [reflexivity|exact H]. Qed.
+
+Theorem crc16_error_superposition : forall (D E : list N) c,
+  length D = length E ->
+  Forall (fun b => b < 256) D -> Forall (fun b => b < 256) E -> c < 65536 ->
+  lha_crc16_buf c (map2 N.lxor D E) = N.lxor (lha_crc16_buf c D) (crc_bits 0 (bits_lsb E)).
+Proof. exact P_CrcBurst.crc16_error_superposition. Qed.
+
+(* any burst of at most 16 bits is detected, whatever the data and its length *)
+Theorem burst16_detected : forall (D E : list N),
+  length D = length E ->
+  Forall (fun b => b < 256) D -> Forall (fun b => b < 256) E ->
+  is_burst16 (bits_lsb E) ->
+  forall c, c < 65536 -> lha_crc16_buf c (map2 N.lxor D E) <> lha_crc16_buf c D.
+Proof. exact P_CrcBurst.burst16_detected. Qed.
+
+Theorem stored_member_burst16_detected : forall (D E : list N) (recorded : N),
+  length D = length E ->
+  Forall (fun b => b < 256) D -> Forall (fun b => b < 256) E ->
+  is_burst16 (bits_lsb E) -> recorded = lha_crc16_buf 0 D ->
+  lha_crc16_buf 0 (map2 N.lxor D E) <> recorded.
+Proof. exact P_CrcBurst.stored_member_burst16_detected. Qed.
+
+Print Assumptions verdict_crc_is_arc.
+Print Assumptions crc16_error_superposition.
+Print Assumptions burst16_detected.
+Print Assumptions stored_member_burst16_detected.
